@@ -26,6 +26,7 @@
 //   - loops are `for i := a; i < b; i++` (fuel (b-a).toNat, b a variable not assigned in the body) or `for i := a; i >= 0; i--` (fuel (a+1).toNat),
 //     the body never assigns i; a `return` inside a loop is only allowed in a closure without results (the loop then reports it with a flag);
 //   - a closure is `name := func() { … }` called as a statement `name()`: it becomes a def whose result is the tuple of captured variables it assigns.
+//
 // Not modelled: panics of out-of-range reads (an out-of-range read yields `fzero`, as in Model/GoImp.lean), integer overflow.
 package main
 
